@@ -1199,10 +1199,51 @@ fn rng_bool_static(b: bool) -> bool {
 
 /// several threads use one schema at once; results must equal the sequential ones
 fn t_threads(rng: &mut Rng, stats: &mut Stats) {
-	let ty = gen_small_schema(rng);
+	// half of the histories: a union with several NAMED branches, each thread presenting another branch first (whatever
+	// a schema node remembers about the first caller, the first callers are then different and concurrent)
+	let named_union = rng.bool();
+	let ty = if named_union {
+		stats.op("threads:union-of-named-branches");
+		Ty::Record {
+			name: 0,
+			fields: vec![
+				(
+					0,
+					Ty::Union(vec![
+						Ty::Record { name: 1, fields: vec![(0, Ty::Int)] },
+						Ty::Record { name: 2, fields: vec![(0, Ty::Int)] },
+						Ty::Enum { name: 3, symbols: 3 },
+						Ty::Fixed { name: 4, size: 2 },
+						Ty::Null,
+					]),
+				),
+				(1, Ty::Long),
+			],
+		}
+	} else {
+		gen_small_schema(rng)
+	};
 	let env = Env::build(&ty);
 	let n_threads = 2 + rng.usize(2);
-	let vals: Vec<Vec<Val>> = (0..n_threads).map(|_| (0..1 + rng.usize(2)).map(|_| gen_one(rng, &env, &ty)).collect()).collect();
+	let vals: Vec<Vec<Val>> = if named_union {
+		(0..n_threads)
+			.map(|t| {
+				(0..2 + rng.usize(2))
+					.map(|j| {
+						let b = (t + j * (1 + t)) % 4;
+						let inner = match b {
+							0 | 1 => Val::Record(vec![Val::Int(rng.range(-5, 5) as i32)]),
+							2 => Val::Enum(rng.below(3) as u16),
+							_ => Val::Fixed(rng.bytes(2)),
+						};
+						Val::Record(vec![Val::Union(b as u16, Box::new(inner)), Val::Long(rng.range(-100, 100))])
+					})
+					.collect()
+			})
+			.collect()
+	} else {
+		(0..n_threads).map(|_| (0..1 + rng.usize(2)).map(|_| gen_one(rng, &env, &ty)).collect()).collect()
+	};
 	let built_from_graph = rng.bool();
 	let make_schema = |stats: &mut Stats| -> Schema {
 		if built_from_graph {
@@ -1263,6 +1304,16 @@ fn t_threads(rng: &mut Rng, stats: &mut Stats) {
 				s.spawn(move || worker(schema, ty, vs, exp, file));
 			}
 		});
+		// whatever the concurrent phase left behind in the schema must not change later, sequential results
+		stats.op("threads:sequential-use-after-concurrent-use");
+		for (vs, exp) in vals.iter().zip(&expected) {
+			for (v, e) in vs.iter().zip(exp) {
+				let b = encode(&schema, &env, &ty, v, PresCfg::plain()).unwrap_or_else(|e| mismatch!("sequential encode after concurrent use: {e}"));
+				if &b != e {
+					mismatch!("serialization after concurrent use of the schema differs from the sequential result: {b:?} vs {e:?}");
+				}
+			}
+		}
 		drop(schema);
 	} else {
 		stats.op("threads:arc");
